@@ -154,6 +154,13 @@ def h_outputs(ctx):
         if kty == "oct":
             return Outcome("n/a", [], nontrivial=None)
         pub = A.jkey(rjwk.public_of(jwk), "dict" if origin.startswith("dict") else origin)
+        pubs_declared = [A.jkey({**rjwk.public_of(jwk), "use": u}, "dict") for u in ("enc", "sig")]
+        for u, pk in zip(("enc", "sig"), pubs_declared):
+            for pos in ("alone", "after a private key"):
+                members = [pk] if pos == "alone" else [A.jkey(scen.key(kind, 2), "dict"), pk]
+                r = call(lambda: KeySet(members).as_dict(private=True))
+                if r.ok:
+                    vs.append(viol(f"KeySet.as_dict(private=True) on a set holding a public-only key does not raise ({tag})", f"{lab}: public key declaring use={u}, {pos}: returned {len(r.value['keys'])} entries"))
         for name, f in (("as_dict(private=True)", lambda: pub.as_dict(private=True)), ("as_pem(private=True)", lambda: pub.as_pem(private=True)),
                         ("as_der(private=True)", lambda: pub.as_der(private=True)), ("as_bytes(private=True)", lambda: pub.as_bytes(private=True)),
                         ("KeySet.as_dict(private=True)", lambda: KeySet([pub]).as_dict(private=True))):
